@@ -143,6 +143,7 @@ def safety_only(c):
 
 
 def build(reg, cfg=None):
+    reg.plain_views = True
     reg.default_havoc = '*'
     reg.static_fact(members_initialised)
     reg.static_fact(virtual_destructors)
